@@ -90,6 +90,8 @@ func c09pNodes(shape string) []config.Node {
 	return nil
 }
 
+var c09pOutcome string // observation class of the last run (vacuity guard)
+
 func c09pRun(c c09pCase) (string, string) {
 	c09pOnce.Do(func() {
 		module.RegisterInstance(c09pOuter, nil)
@@ -199,6 +201,7 @@ func c09pRun(c c09pCase) (string, string) {
 			return "C09:pipeline:failure-not-reported" + shared, fmt.Sprintf("recipient %q (delivered as %v) failed but no failure status was reported under that address; statuses: %q", a, route(a), st.calls)
 		}
 	}
+	c09pOutcome = fmt.Sprintf("supplied=%d must-fail=%d failures-reported=%d", len(supplied), len(mustFail), len(seenErr))
 	for a := range seenErr {
 		if !mustFail[a] {
 			return "C09:pipeline:failure-for-wrong-recipient", fmt.Sprintf("failure reported for %q which did not fail; statuses %q", a, st.calls)
@@ -272,6 +275,8 @@ func TestVerifC09Pipeline(t *testing.T) {
 				}
 				if fp != "" {
 					r.Violation(fp, detail+"\ncase: "+vx.JSON(c), c)
+				} else {
+					r.Outcome(c.Shape + ": " + c09pOutcome)
 				}
 				if idx%97 == 0 {
 					r.Sample(c)
